@@ -2314,4 +2314,97 @@ theorem play_walk_conservation_refuted : ¬ play_walk_conservation_statement := 
       exact ⟨lookup_none_of_noid _ _ (by decide), by decide, by decide, by decide⟩)
   exact absurd this (by decide)
 
+-- ================================================================ corollaries in terms of `PoolInv`
+
+/-- `play` keeps `PoolInv` (conservation included) — from the strong invariant, see `play_PoolLive` for the hypotheses -/
+theorem play_PoolInv (e : Env) (s : St) (lh : Int) (b : Block) (hinv : PoolLive e s)
+    (hnd : b.txs.Nodup) (hid : ∀ i ∈ b.txs, (e.tx i).id = i)
+    (hnew : ∀ i ∈ b.txs, i ∉ s.pool →
+      (∀ o, lookup s.U (i, o) = none) ∧ (∀ r ∈ (e.tx i).ins, r.tx ≠ i) ∧
+      ((e.tx i).coinbase = true → (e.tx i).ins = [] ∧ feeOf (e.tx i).outs = 0) ∧
+      (∀ j ∈ s.pool, ∀ r ∈ (e.tx j).ins, r.tx ≠ i))
+    (hparents : ∀ i ∈ b.txs, ∀ r ∈ (e.tx i).ins, r.tx ∈ s.pool → r.tx ∈ b.txs)
+    (hdeps : ∀ c ∈ b.txs, c ∈ s.pool → ∀ p ∈ s.pool, dependsOn e s.pool c p = true → p ∈ b.txs) :
+    PoolInv e (play e s lh b).1 :=
+  (play_PoolLive e s lh b hinv hnd hid hnew hparents hdeps).toPoolInv
+
+/-- `walk` keeps `PoolInv` (conservation included), whatever its outcome — from the ledger invariant, see `walk_Ledger` -/
+theorem walk_PoolInv (e : Env) (s : St) (lh : Int) (dest : Nat) (prune : Bool) (C C0 : List Nat) (h : Ledger e s C)
+    (hundo : C = C0 ++ blockTxs e (undoTodo e s.pointer dest).1.reverse)
+    (hnd : (C0 ++ blockTxs e (undoTodo e s.pointer dest).2).Nodup)
+    (hblk : ∀ bi ∈ (undoTodo e s.pointer dest).2, (∀ i ∈ (e.block bi).txs, (e.tx i).id = i) ∧
+      (∀ i ∈ (e.block bi).txs, (e.tx i).coinbase = true → (e.tx i).ins = [] ∧ feeOf (e.tx i).outs = 0) ∧
+      (e.block bi).txs.Pairwise (fun a b => ∀ r ∈ (e.tx a).ins, r.tx ≠ b))
+    (hre : ∀ i ∈ s.pool, i ∈ C0 ++ blockTxs e (undoTodo e s.pointer dest).2 → (e.tx i).ins ≠ []) :
+    PoolInv e (walk e s lh dest prune).1 := by
+  obtain ⟨C', c1, _⟩ := walk_Ledger e s lh dest prune C C0 h hundo hnd hblk hre
+  exact c1.toPoolInv
+
+-- non-vacuity of `playForMiner_Ledger` / `playForMiner_PoolLive`: the miner packs the award and both pending transactions
+-- (parent before child); the pool empties, the fees 2 + 1 and the award 10 go to the miner, Σ U = total = 26
+example :
+    let e : Env := {
+      txs := [
+        (100, ⟨100, true, [], [⟨"u0", 16, 0⟩], [], []⟩),
+        (1, ⟨1, false, [⟨100, 0, "u0", 16, 0, false⟩], [⟨"u1", 10, 0⟩, ⟨"u0", 4, 0⟩, ⟨"$", 2, 0⟩], [], []⟩),
+        (2, ⟨2, false, [⟨1, 0, "u1", 10, 0, false⟩], [⟨"u2", 9, 0⟩, ⟨"$", 1, 0⟩], [], []⟩),
+        (9, ⟨9, true, [], [⟨"miner", 10, 0⟩], [], []⟩)],
+      blocks := [(10, ⟨10, some 0, 0, [100], "g"⟩), (11, ⟨11, some 10, 1, [9, 1, 2], "miner"⟩)] }
+    let s1 : St := { U := [((100, 0), ⟨"u0", 16, 0⟩)], total := 16, pointer := 10 }
+    let s2 : St := { U := [((1, 1), ⟨"u0", 4, 0⟩), ((1, 0), ⟨"u1", 10, 0⟩)], total := 16, pointer := 10, pool := [1] }
+    let s3 : St := { U := [((2, 0), ⟨"u2", 9, 0⟩), ((1, 1), ⟨"u0", 4, 0⟩)], total := 16, pointer := 10, pool := [1, 2] }
+    play e {} 0 (e.block 10) = (s1, .ok) ∧ doTx e s1 0 1 = (s2, .ok) ∧ doTx e s2 0 2 = (s3, .ok) ∧
+    (playForMiner e s3 0 (e.block 11)).2 = .ok ∧
+    Ledger e s3 [100] ∧ PoolLive e s3 ∧ Ledger e (playForMiner e s3 0 (e.block 11)).1 [100, 9, 1, 2] ∧
+    PoolLive e (playForMiner e s3 0 (e.block 11)).1 ∧
+    (playForMiner e s3 0 (e.block 11)).1.pool = [] ∧ sumU (playForMiner e s3 0 (e.block 11)).1.U = 26 ∧
+    (playForMiner e s3 0 (e.block 11)).1.total = 26 := by
+  intro e s1 s2 s3
+  have e1 : play e {} 0 (e.block 10) = (s1, .ok) := by rfl
+  have e2 : doTx e s1 0 1 = (s2, .ok) := by rfl
+  have e3 : doTx e s2 0 2 = (s3, .ok) := by rfl
+  have hok : (playForMiner e s3 0 (e.block 11)).2 = .ok := by decide
+  have h1 : Ledger e s1 [100] := by
+    have := play_Ledger e {} 0 (e.block 10) [] (Ledger_genesis e) (by decide) (by decide) (by decide) (by decide)
+      (by decide) (by decide) (by decide)
+    rw [e1] at this
+    exact this
+  have h2 : Ledger e s2 [100] := by
+    have := doTx_Ledger e s1 0 1 [100] h1 (fun _ => by decide)
+    rw [e2] at this
+    exact this
+  have h3 : Ledger e s3 [100] := by
+    have := doTx_Ledger e s2 0 2 [100] h2 (fun _ => by decide)
+    rw [e3] at this
+    exact this
+  have h4 : Ledger e (playForMiner e s3 0 (e.block 11)).1 [100, 9, 1, 2] := by
+    have := playForMiner_Ledger e s3 0 (e.block 11) [100] h3 (by decide) (by decide) (by decide) (by decide)
+      (by decide) (by decide) (by decide)
+    rw [if_pos hok] at this
+    exact this
+  -- the same through the pool-only invariant (rows of unknown origin allowed, explicit freshness hypotheses)
+  have p1 : PoolLive e s1 := PoolLive_of_empty e s1 (by unfold UNodup; decide) rfl (by decide)
+  have p2 : PoolLive e s2 := by
+    have := doTx_PoolLive e s1 0 1 p1
+      (fun _ => ⟨by decide, lookup_none_of_noid _ _ (by decide), by decide, by decide, by decide⟩)
+    rw [e2] at this
+    exact this
+  have p3 : PoolLive e s3 := by
+    have := doTx_PoolLive e s2 0 2 p2
+      (fun _ => ⟨by decide, lookup_none_of_noid _ _ (by decide), by decide, by decide, by decide⟩)
+    rw [e3] at this
+    exact this
+  have p4 : PoolLive e (playForMiner e s3 0 (e.block 11)).1 := by
+    apply playForMiner_PoolLive e s3 0 (e.block 11) p3 (by decide) (by decide) (by decide) _ (by decide)
+    intro i hi hc
+    have hi9 : i = 9 := by
+      have hi' : i = 9 ∨ i = 1 ∨ i = 2 := by simpa [e, Env.block, lookup] using hi
+      rcases hi' with rfl | rfl | rfl
+      · rfl
+      · exact absurd hc (by decide)
+      · exact absurd hc (by decide)
+    subst hi9
+    exact ⟨by decide, by decide, lookup_none_of_noid _ _ (by decide), by decide⟩
+  exact ⟨e1, e2, e3, hok, h3, p3, h4, p4, by decide, by decide, by decide⟩
+
 end XV.C02
